@@ -109,6 +109,8 @@ The(O, lab) == FeatsWith(O, lab)[1]
 
 AllWF(O) == UNION {If(~O.feats[j].wf, V("wf", O.feats[j].label)) : j \in 1..Len(O.feats)}
 AllWFx(O, skip) == {v \in AllWF(O) : v[2] \notin skip}
+\* features that were already ill-formed before the step (garbage in)
+Ill(S) == {S.feats[j].label : j \in {q \in 1..Len(S.feats) : ~S.feats[q].wf}}
 
 \* table order: source features first, then no adjacent inversion under Less
 OrderOK(O) ==
@@ -200,13 +202,14 @@ JudgeInsert(H, G, O, i, embed) ==
         LET o == The(O, f.label) IN
         SameMeta(f, o)
         \cup (IF FDen(f) = <<>>
-              THEN SiteRule(f, o, G.ids, ids2, SeqToSet(G.ids), -1, FALSE)
+              THEN \* a guest site keeps its place inside the guest
+                   If(FDen(o) # <<>> \/ o.gaps # {i + g : g \in f.gaps}, V("site", f.label))
               ELSE If(FDen(o) # FDen(f), V("den", f.label))
                    \cup If(o.f5 # f.f5, V("flag5", f.label)) \cup If(o.f3 # f.f3, V("flag3", f.label)))
       once == Once(O, Labels(H) \cup Labels(G))
   IN ResRule(O, ids2, byt2)
      \cup If(Len(O.feats) # Len(H.feats) + Len(G.feats), V("count", "-"))
-     \cup AllWF(O)
+     \cup AllWFx(O, Ill(H) \cup Ill(G))
      \cup once
      \cup (IF once # {} THEN {} ELSE
              UNION {IF H.feats[j].wf THEN hostRule(H.feats[j]) ELSE {} : j \in 1..Len(H.feats)}
@@ -240,7 +243,7 @@ JudgeDelete(S, O, i, n, erase) ==
         ELSE IF n1 # 1 THEN V("once", f.label)
         ELSE RemovedRule(f, The(O, f.label), S.ids, ids2, surv, i, FALSE)
   IN ResRule(O, ids2, byt2)
-     \cup AllWF(O)
+     \cup AllWFx(O, Ill(S))
      \cup If(\E j \in 1..Len(O.feats) : O.feats[j].label \notin Labels(S), V("count", "-"))
      \cup UNION {IF S.feats[j].wf THEN rule(S.feats[j]) ELSE {} : j \in 1..Len(S.feats)}
 
@@ -276,7 +279,7 @@ JudgeSlice(S, O, a, b) ==
                              /\ FDen(The(O, f.label)) # want, V("den", f.label))
            ELSE RemovedRule(f, The(O, f.label), S.ids, ids2, surv, -1, f.key = "source")
   IN ResRule(O, ids2, byt2)
-     \cup AllWFx(O, skip)
+     \cup AllWFx(O, skip \cup Ill(S))
      \cup If(O.topo \notin {"linear", "na"}, V("topo", "-"))
      \cup If(\E j \in 1..Len(O.feats) : O.feats[j].label \notin Labels(S), V("count", "-"))
      \cup UNION {IF S.feats[j].wf THEN rule(S.feats[j]) ELSE {} : j \in 1..Len(S.feats)}
@@ -304,7 +307,7 @@ JudgeRotate(S, O, n) ==
                         \cup If(o.f5 # f.f5, V("flag5", f.label)) \cup If(o.f3 # f.f3, V("flag3", f.label)))
       once == Once(O, Labels(S))
   IN ResRule(O, ids2, byt2)
-     \cup AllWFx(O, skip)
+     \cup AllWFx(O, skip \cup Ill(S))
      \cup If(Len(O.feats) # Len(S.feats), V("count", "-"))
      \cup once
      \cup (IF once # {} THEN {} ELSE UNION {IF S.feats[j].wf THEN rule(S.feats[j]) ELSE {} : j \in 1..Len(S.feats)})
@@ -326,7 +329,7 @@ JudgeReverse(S, O) ==
                    \cup If(o.f5 # f.f3, V("flag5", f.label)) \cup If(o.f3 # f.f5, V("flag3", f.label)))
       once == Once(O, Labels(S))
   IN ResRule(O, ids2, byt2)
-     \cup AllWF(O)
+     \cup AllWFx(O, Ill(S))
      \cup If(Len(O.feats) # Len(S.feats), V("count", "-"))
      \cup once
      \cup (IF once # {} THEN {} ELSE UNION {IF S.feats[j].wf THEN rule(S.feats[j]) ELSE {} : j \in 1..Len(S.feats)})
@@ -343,7 +346,7 @@ JudgeComplement(S, O) ==
                    \cup If(o.f5 # f.f3, V("flag5", f.label)) \cup If(o.f3 # f.f5, V("flag3", f.label)))
       once == Once(O, Labels(S))
   IN ResRule(O, S.ids, byt2)
-     \cup AllWF(O)
+     \cup AllWFx(O, Ill(S))
      \cup If(Len(O.feats) # Len(S.feats), V("count", "-"))
      \cup once
      \cup (IF once # {} THEN {} ELSE UNION {IF S.feats[j].wf THEN rule(S.feats[j]) ELSE {} : j \in 1..Len(S.feats)})
@@ -353,23 +356,28 @@ JudgeTranscribe(S, O) ==
   IN ResRule(O, S.ids, byt2)
      \cup If(O.raw.feats # S.raw.feats, V("feats", "-"))
 
-\* bag of (label, den, flags) of a record
-FeatSig(f) == <<f.label, f.key, FDen(f), f.f5, f.f3, f.props>>
-CountSig(R, sig) == Cardinality({j \in 1..Len(R.feats) : FeatSig(R.feats[j]) = sig})
-
-RECURSIVE SumCount(_, _)
-SumCount(Rs, sig) == IF Rs = <<>> THEN 0 ELSE CountSig(Head(Rs), sig) + SumCount(Tail(Rs), sig)
+\* bag of (label, key, den, flags, props, sites) of a record whose residues
+\* start at offset off of the identities ids2
+FeatSigAt(f, off, ids2) == <<f.label, f.key, FDen(f), f.f5, f.f3, f.props,
+                             IF FDen(f) = <<>> THEN {Adj(g + off, ids2, FALSE) : g \in f.gaps} ELSE {}>>
+CountSigAt(R, sig, off, ids2) == Cardinality({j \in 1..Len(R.feats) : FeatSigAt(R.feats[j], off, ids2) = sig})
 
 JudgeConcat(Rs, O) ==
   LET ids2 == FlatSeq([j \in 1..Len(Rs) |-> Rs[j].ids])
       byt2 == FlatSeq([j \in 1..Len(Rs) |-> Rs[j].byt])
-      sigs == UNION {{FeatSig(Rs[j].feats[q]) : q \in 1..Len(Rs[j].feats)} : j \in 1..Len(Rs)}
+      RECURSIVE Off(_)
+      Off(j) == IF j = 1 THEN 0 ELSE Off(j - 1) + Len(Rs[j - 1].ids)
+      sigs == UNION {{FeatSigAt(Rs[j].feats[q], Off(j), ids2) : q \in 1..Len(Rs[j].feats)} : j \in 1..Len(Rs)}
       RECURSIVE Tot(_)
       Tot(xs) == IF xs = <<>> THEN 0 ELSE Len(Head(xs).feats) + Tot(Tail(xs))
+      RECURSIVE Sum(_, _)
+      Sum(j, sig) == IF j = 0 THEN 0 ELSE CountSigAt(Rs[j], sig, Off(j), ids2) + Sum(j - 1, sig)
+      ill == UNION {Ill(Rs[j]) : j \in 1..Len(Rs)}
   IN ResRule(O, ids2, byt2)
-     \cup AllWF(O)
+     \cup AllWFx(O, ill)
      \cup If(Len(O.feats) # Tot(Rs), V("count", "-"))
-     \cup UNION {If(CountSig(O, sig) # SumCount(Rs, sig), V("den", sig[1])) : sig \in sigs}
+     \cup UNION {If(sig[1] \notin ill /\ CountSigAt(O, sig, 0, ids2) # Sum(Len(Rs), sig),
+                     V(IF sig[3] = <<>> THEN "site" ELSE "den", sig[1])) : sig \in sigs}
 
 (***************************************************************************)
 (* Laws relating records of one workspace (C04, C05, C10)                  *)
